@@ -26,7 +26,7 @@ def c03_bombs(r, seed, tier, model_ok):
     def val(): return R.choice([E(R.randrange(-5, 6)), "(ㄴ ㄷ ㄷㅎㄷ)", "(ㄱ ㅁㅈㅎㄴ)", T, F, "(ㄴ ㄷ ㅁㄹㅎㄷ)"])
     def shape(hole):
         """returns a program text with `hole` placed in a position that must never be evaluated"""
-        k = R.randrange(13) if R.random() < .6 else R.choice([12, 13, 13, 14]); v = val()
+        k = R.randrange(13) if R.random() < .6 else R.choice([12, 13, 13, 14, 15, 15]); v = val()
         if k == 0: return f"{v} {hole} (ㄱㅇㄱ ㅎ) ㅎㄷ", "unused-argument"
         if k == 1: return f"{hole} {v} (ㄴㅇㄱ ㅎ) ㅎㄷ", "unused-argument"
         if k == 2: return f"{v} {hole} {T} ㅎㄷ", "unselected-branch"
@@ -70,6 +70,16 @@ def c03_bombs(r, seed, tier, model_ok):
             if kk == 2: return f"{lst} ((ㄱㅇㄱ ㅈㄷㅎㄴ) ㅎ) ㅎㄴ", "function-measures-list"
             if kk == 3: return call("ㅈㄷ", [call("ㅅㅈ", [E(1), lst, E(2), hole])]), "dict-of-list-len"
             return f"({E(2)} ({E(1)} {call('ㅅㅈ', [E(1), lst])} ㅎㄴ) ㅎㄴ)", "dict-of-list-other-element"
+        if k == 15:   # pipes (ㄴㄱ): what one stage returns - or is handed - and the NEXT stage never looks at; stages that only store or forward it
+            kk = R.randrange(8); K = f"({v} ㅎ)"; ID = "(ㄱㅇㄱ ㅎ)"
+            if kk == 0: return f"{v} (({hole}) ㅎ) {K} ㄴㄱㅎㄷ ㅎㄴ", "pipe-stage-result-ignored-by-next"
+            if kk == 1: return f"{hole} {ID} {K} ㄴㄱㅎㄷ ㅎㄴ", "pipe-identity-then-constant"
+            if kk == 2: return f"{hole} {ID} {ID} {K} ㄴㄱㅎㄹ ㅎㄴ", "pipe-two-identities-then-constant"
+            if kk == 3: return f"({hole} {ID} (ㄱㅇㄱ {v} ㅁㄹㅎㄷ ㅎ) ㄴㄱㅎㄷ ㅎㄴ) ㅈㄷㅎㄴ", "pipe-stored-in-list-len"
+            if kk == 4: return f"{v} (({hole}) ㅎ) (ㄱㅇㄱ {val()} ㅁㄹㅎㄷ ㅎ) (ㄱㅇㄱ ㅈㄷㅎㄴ ㅎ) ㄴㄱㅎㄹ ㅎㄴ", "pipe-result-stored-then-measured"
+            if kk == 5: return f"{call('ㅁㄹ', [hole, v])} ((ㄴㅇㄱ ㅎ) ㅁㅂㅎㄴ) ㅎㄴ", "collect-other-argument"
+            if kk == 6: return f"{call('ㅁㄹ', [v, hole])} ((ㄱㅇㄱ ㅎ) ㅁㅂㅎㄴ) {K} ㄴㄱㅎㄷ ㅎㄴ", "pipe-of-collect-then-constant"
+            return f"{v} {hole} ((ㄱㅇㄱ ㅈㄷㅎㄴ ㅎ) ㅂㅂㅎㄴ) {ID} ㄴㄱㅎㄷ ㅎㄷ", "pipe-of-spread-len"
         inner, kk = shape(hole); return f"{inner} {hole} (ㄱㅇㄱ ㅎ) ㅎㄷ", "nested-" + kk
     cases = []; twins = []; kinds = collections.Counter()
     for _ in range(n):
@@ -85,7 +95,7 @@ def c03_bombs(r, seed, tier, model_ok):
         if out_of(x) != out_of(y) and "TIMEOUT" not in x + y:
             bad.append(dict(program=c["text"], impl=str(out_of(x))[:200], model="the bomb-free twin gives " + str(out_of(y))[:200], which=["bomb-" + c["bomb"]]))
     r.slice("bombs_in_nonstrict_positions", len(cases), len({c["text"] for c in cases}), [cases[0]["text"], cases[1]["text"]], dict(kinds),
-            "15 non-strict position shape families x 5 bombs; oracle: same (result, stdout, unread stdin) as the twin with a harmless literal in the marked position", bad[:40])
+            "16 non-strict position shape families (incl. pipe / collect / spread stages) x 5 bombs; oracle: same (result, stdout, unread stdin) as the twin with a harmless literal in the marked position", bad[:40])
     if model_ok:
         m = model_run(cases); dist, bad2 = compare(cases, a, m)
         r.slice("bomb_programs_vs_model", len(cases), len({c["text"] for c in cases}), [cases[2]["text"]], dict(outcomes=dict(dist)), "the same programs, complete event trace vs the model (an evaluated bomb would add events)", bad2)
